@@ -191,6 +191,10 @@ def run_fresh(case) -> Result:
         try:
             utc = ["ok", _norm(_under("UTC", lambda: _collapse(it)))]
         except Exception as exc:
+            from hxv.runner import CaseTimeout
+
+            if isinstance(exc, (CaseTimeout, MemoryError)):
+                raise
             v = raises(exc, "zone")
             utc = ["fails", v.kind, v.site]
         if o == utc:
@@ -223,6 +227,10 @@ def run_case(case) -> Result:
         try:
             return _under(tzname, lambda: _collapse(case))
         except Exception as exc:
+            from hxv.runner import CaseTimeout
+
+            if isinstance(exc, (CaseTimeout, MemoryError)):
+                raise  # the watchdog's business (it confirms with a larger budget), not an outcome to compare
             v = raises(exc, "zone")
             return ("fails", v.kind, v.site)
 
